@@ -12,6 +12,7 @@ import SmoothProofs.C13Knot
 import SmoothProofs.C13Cont
 import SmoothProofs.C13Table
 import SmoothProofs.C13Dumped
+import SmoothProofs.C13DumpedAcc
 import Mathlib.Data.List.GetD
 import Mathlib.Tactic.Group
 
@@ -472,6 +473,78 @@ theorem knot_continuity_dumped_tables (n : Nat) (hn : 1 ≤ n) (hK : n + 1 ∈ [
     exact this
   exact knot_continuity_vel_tol G hAd hε _ _ _ (window_shift_diffs G ctrl i n) f1' (fun j => ⟨s0 j, s1 j⟩) ⟨l0, l1⟩ hβ hV hVl
 
+/-- **Acceleration continuity at the knots for the implementation's own (double) tables,
+    `3 ≤ K ≤ 6`** (`K ≤ 2` has no continuous acceleration).  The dumped tables satisfy the knot
+    identities of EVERY order `d < K` — in particular `d = 2` — within `ε = 2⁻⁴⁸` (kernel-checked on
+    every run); hence window `i` at `u = 1` and window `i+1` at `u = 0` give accelerations that
+    differ by at most `accJumpBound M L C ε β β₂ V n`, every term of which carries a factor `ε`.
+    `M`, `L` as in `knot_continuity_dumped_tables`; `C` bounds the bracket `‖ad(x)v‖ ≤ C‖x‖‖v‖`
+    (`adBound`), `V` the differences of the control points, `β`, `β₂` the basis derivatives
+    `|B̃ⱼ'(0)|`, `|B̃ⱼ''(0)|`.  (The `t`-acceleration of `BSpline.eval` is this divided by `dt²`:
+    `derivatives_are_scaled_body_derivatives`.) -/
+theorem knot_continuity_acc_dumped_tables (n : Nat) (hn : 2 ≤ n) (hK : n + 1 ∈ [1, 2, 3, 4, 5, 6]) (G : LieModel ℝ)
+    {M L C β β₂ V : ℝ} (hAd : AdBounds G M L) (had : adBound G C) (ctrl : List (Vec ℝ G.rep)) (i : Nat)
+    (hβ : ∀ j : Fin n, |bd (dumpedCum (n + 1)) 0 1 j.castSucc| ≤ β)
+    (hβ₂ : ∀ j : Fin n, |bd (dumpedCum (n + 1)) 0 2 j.castSucc| ≤ β₂)
+    (hV : ∀ j, ‖(CSpline.diffs G (BSpline.window G.identity (n + 1) ctrl i) j).get‖ ≤ V)
+    (hVl : ‖(CSpline.diffs G (BSpline.window G.identity (n + 1) ctrl (i + 1)) (Fin.last n)).get‖ ≤ V) :
+    let ε : ℝ := ((1 / 2 ^ 48 : Rat) : ℝ)
+    let A := CSpline.eval_gs G (BSpline.window G.identity (n + 1) ctrl i) (dumpedCum (n + 1)) 1
+    let B := CSpline.eval_gs G (BSpline.window G.identity (n + 1) ctrl (i + 1)) (dumpedCum (n + 1)) 0
+    ‖A.acc.get - B.acc.get‖ ≤ accJumpBound M L C ε β β₂ V n := by
+  intro ε A B
+  have hid := bspline_knot_identities.2.2.1 (n + 1) hK
+  have hε : (0 : ℝ) ≤ ε := by simp only [ε]; positivity
+  obtain ⟨_, s0, l0⟩ := jets_of_table_tol hid 0 (by omega)
+  obtain ⟨f1, s1, l1⟩ := jets_of_table_tol hid 1 (by omega)
+  obtain ⟨f2, s2, l2⟩ := jets_of_table_tol hid 2 (by omega)
+  have hAa : A.acc = (CSpline.eval_vs G (CSpline.diffs G (BSpline.window G.identity (n + 1) ctrl i)) (dumpedCum (n + 1)) 1).acc := by
+    simp only [A, CSpline.eval_gs, memoV_eq]
+  have hBa : B.acc = (CSpline.eval_vs G (CSpline.diffs G (BSpline.window G.identity (n + 1) ctrl (i + 1))) (dumpedCum (n + 1)) 0).acc := by
+    simp only [B, CSpline.eval_gs, memoV_eq]
+  rw [hAa, hBa]
+  have f1' : |bd (dumpedCum (n + 1)) 1 1 (0 : Fin (n + 1))| ≤ ε := by
+    have := f1
+    simp only [one_ne_zero, if_false, sub_zero] at this
+    exact this
+  have f2' : |bd (dumpedCum (n + 1)) 1 2 (0 : Fin (n + 1))| ≤ ε := by
+    have := f2
+    simp only [OfNat.ofNat_ne_zero, if_false, sub_zero] at this
+    exact this
+  exact knot_continuity_acc_tol G hAd had hε _ _ _ (window_shift_diffs G ctrl i n) ⟨f1', f2'⟩
+    (fun j => ⟨s0 j, s1 j, s2 j⟩) ⟨l0, l1, l2⟩ hβ hβ₂ hV hVl
+
+/-- in the commutative case (`M = 1`, `L = 0`, `C = 0`) the acceleration bound is `(n+2)·2⁻⁴⁸·V`:
+    at most `7·2⁻⁴⁸ ≈ 2.5e-14` times the largest control-point difference for `K ≤ 6` -/
+theorem acc_jump_bound_commutative (ε β β₂ V : ℝ) (n : Nat) :
+    accJumpBound 1 0 0 ε β β₂ V n = ((n : ℝ) + 2) * (ε * V) := accJumpBound_comm ε β β₂ V n
+
+/-- non-vacuity of `adBound`: translations (`C = 0`, the bracket vanishes) -/
+example : adBound (Tn.model (α := ℝ) 3) 0 := by
+  have hA : ∀ (x : Vec ℝ (Tn.model (α := ℝ) 3).dof) (v : Fin (Tn.model (α := ℝ) 3).dof → ℝ),
+      C11.mv ((Tn.model (α := ℝ) 3).ad x) v = 0 := by
+    intro x v
+    show C11.mv (mzero 3 3 : Mat ℝ 3 3) v = 0
+    exact C11.mv_mzero v
+  refine ⟨le_refl _, ?_, ?_⟩
+  · intro x v; rw [hA]; simp
+  · intro x y v; rw [hA, hA]; simp
+
+/-- non-vacuity of `adBound` for a NON-commutative group: SO(3) with `C = 2` -/
+example : adBound (SO3.model (α := ℝ)) 2 := by
+  refine ⟨by norm_num, ?_, ?_⟩
+  · intro (x : Vec ℝ 3) (v : Vec ℝ 3)
+    show ‖C11.mv (SO3.hat x) v.get‖ ≤ _
+    rw [pi_norm_le_iff_of_nonneg (by positivity)]
+    intro i
+    rw [Real.norm_eq_abs]
+    exact so3_cross_bound x.get v.get i
+  · intro (x : Vec ℝ 3) (y : Vec ℝ 3) (v : Vec ℝ 3)
+    show ‖C11.mv (SO3.hat x) v.get - C11.mv (SO3.hat y) v.get‖ ≤ _
+    rw [so3_hat_sub, pi_norm_le_iff_of_nonneg (by positivity)]
+    intro i
+    rw [Real.norm_eq_abs]
+    exact so3_cross_bound _ _ i
 /-- non-vacuity of `AdBounds`: translations (`M = 1`, `L = 0`); the bound is then `(n+2)·2⁻⁴⁸·V` -/
 example : AdBounds (Tn.model (α := ℝ) 3) 1 0 := by
   have hA : ∀ (b : ℝ) (v : Vec ℝ (Tn.model (α := ℝ) 3).dof) (x : Fin (Tn.model (α := ℝ) 3).dof → ℝ),
